@@ -1106,3 +1106,7 @@ def check(case):
                     case.fail('label', 'trace %r belongs to no selected individual with observable %r' % (
                         tr.name, obs))
         return
+
+
+RULE += (' Classes and clauses added in later rounds of the seeded-change protocol (DESIGN 9.4) are named in REQUIRED '
+         'and in seeded/HISTORY.json; the evidence counts every one of them under classes.')
